@@ -348,6 +348,30 @@ def permute_page(text: str, rng: random.Random) -> str:
     return text[:content[0]] + body + text[content[1]:]
 
 
+def insert_lone_atoms(text: str, rng: random.Random) -> str:
+    """put fragments WITHOUT bonds (a counter-ion, a single atom) on the page: one in front of the first child of the
+    page, one behind the last, possibly one in between.  They stand far away from everything, so no label is theirs and
+    every label keeps its fragment."""
+    spans, content = _page_children(text)
+    if not spans:
+        return text
+    top = max([int(x) for x in collect_ids(text) if x.isdigit()] + [0]) + 1000
+
+    def lone(k, x, y):
+        el = rng.choice([17, 35, 11, 8])
+        return (f'<fragment id="{top + 2 * k}" BoundingBox="{x - 3} {y - 3} {x + 3} {y + 3}" Z="{9000 + k}">'
+                f'<n id="{top + 2 * k + 1}" p="{x} {y}" Z="{9100 + k}" Element="{el}" NumHydrogens="0" '
+                f'Charge="{-1 if el in (17, 35) else 0}" AS="N" /></fragment>')
+
+    places = [spans[0][0], spans[-1][1]]
+    if len(spans) > 2 and rng.random() < 0.5:
+        places.append(spans[rng.randrange(1, len(spans))][0])
+    out = text
+    for k, pos in sorted(enumerate(places), key=lambda t: -t[1]):
+        out = out[:pos] + lone(k, -20000.0 - 50 * k, -20000.0 - 50 * k) + out[pos:]
+    return out
+
+
 def reorder_nodes(text: str, rng: random.Random) -> str:
     """shuffle the document order of the <n> children of every top-level fragment (bonds stay where they are, a
     node keeps everything nested in it): the same drawing with its atoms numbered differently"""
